@@ -183,6 +183,7 @@ class Interp:
     op_conn = lambda self, *a: self._design(["conn", *a])
     op_disc = lambda self, *a: self._design(["disc", *a])
     op_repl = lambda self, *a: self._design(["repl", *a])
+    op_reinst = lambda self, *a: self._design(["inst", *a])  # same API call: the name is assigned again
 
     def _put(self, env, name, obj, how="setattr"):
         """Add a named attribute to the module under construction."""
@@ -363,5 +364,5 @@ class Interp:
         self.junk_keep.append(bytearray(n * 7 + 1))
 
 
-DESIGN_OPS = {"bundle", "ext", "module", "end", "sig", "bun", "inst", "arr", "pair", "conn", "disc", "repl"}
+DESIGN_OPS = {"bundle", "ext", "module", "end", "sig", "bun", "inst", "arr", "pair", "conn", "disc", "repl", "reinst"}
 EXPORT_OPS = {"elaborate", "to_proto", "netlist"}
